@@ -643,29 +643,7 @@ def rule_builder_effects(ctx: Ctx, out: Collector) -> None:
                 f'while building, the builder writes to {tgt} ({how}), an object that outlives this build (node class, mark, module): the '
                 f'result of build_dag now depends on which classes were analysed before and in which order (inherited / stale state)',
                 props={'C15', 'C16'})
-    # BD-7
-    trav = _traverse_function(ctx)
-    loop, mark_var, kw_var, br = _branches(ctx, trav)
-    for name, node in sorted(br.items()):
-        conditional = []
-        for st in ast.walk(node):
-            if st is node:
-                continue
-            if isinstance(st, ast.If):
-                for x in ast.walk(st):
-                    if isinstance(x, ast.Call) and isinstance(x.func, ast.Attribute) and (
-                            x.func.attr in ('add_node', 'add_edge', 'append', 'add') or x.func.attr.startswith('_add_')
-                            or x.func.attr.startswith('_set_visited')):
-                        conditional.append(x)
-                    if isinstance(x, ast.Call) and isinstance(x.func, ast.Name) and 'visited' in x.func.id and x in ast.walk(st.test):
-                        pass
-        cons = f'{trav.module.name}::{trav.qualname}::{name} branch: graph and registry updates are unconditional'
-        if not conditional:
-            out.ok('BD-7', cons, ctx.p.loc(trav, node), 'no graph / registry update under an if')
-        else:
-            out.bad('BD-7', cons, ctx.p.loc(trav, conditional[0]),
-                    f'in the {name} branch {unparse(conditional[0])[:70]} is executed only conditionally: whether the declaration is fully '
-                    f'translated / validated depends on traversal order or on what was visited before', props={'C15', 'C16', 'C11'})
+    # BD-7 (updates do not depend on the order the traversal meets a node's roles) is decided over builder worlds: bx.py
 
 
 def rule_node_map_and_validation(ctx: Ctx, out: Collector) -> None:
